@@ -85,6 +85,7 @@ type Fake struct {
 	// scripts
 	Next       map[string]Outcome
 	SnapFail   bool
+	RevFail    bool  // next SetRevisionCounter fails
 	GetDelayMs int32 // REST GET answered this late (atomic)
 	CpFail     bool
 	ResizeFail bool
@@ -393,6 +394,10 @@ func (c *Conn) SetRevisionCounter(counter int64) error {
 	f := c.F
 	f.mu.Lock()
 	defer f.mu.Unlock()
+	if f.RevFail {
+		f.RevFail = false
+		return fmt.Errorf("scripted set-revision-counter failure")
+	}
 	if f.Mode != "RW" {
 		return fmt.Errorf("setting revisioncounter during %v mode is invalid", f.Mode)
 	}
